@@ -12,6 +12,7 @@ import (
 
 	sdk "github.com/pokt-network/posmint/types"
 	"github.com/pokt-network/posmint/x/auth"
+	authTypes "github.com/pokt-network/posmint/x/auth/types"
 	govTypes "github.com/pokt-network/posmint/x/gov/types"
 	posTypes "github.com/pokt-network/posmint/x/pos/types"
 
@@ -903,18 +904,37 @@ func (f *Fam) checkSlashing(before, after *Snapshot, w []string, fail func(strin
 	}
 }
 
-func (f *Fam) requiredFee(kind string) sdk.Int {
+// typeName: `msg.Type()` of the message kinds of the line protocol
+var typeName = map[string]string{"stake": "stake_validator", "unstake": "begin_unstaking_validator", "unjail": "unjail", "send": "send",
+	"changeparam": govTypes.MsgChangeParamName, "daotransfer": govTypes.MsgDAOTransferName, "daoburn": govTypes.MsgDAOTransferName, "upgrade": govTypes.MsgUpgradeName}
+
+// requiredFee: the base fee of the message type times the multiplier the state s lists for it (or the default one)
+func (f *Fam) requiredFee(s *Snapshot, kind string) sdk.Int {
+	base := sdk.ZeroInt()
 	switch kind {
 	case "stake", "unstake", "unjail", "send":
-		return sdk.NewInt(f.feeBase)
+		base = sdk.NewInt(f.feeBase)
 	case "changeparam":
-		return sdk.NewInt(govTypes.GovFeeMap[govTypes.MsgChangeParamName])
+		base = sdk.NewInt(govTypes.GovFeeMap[govTypes.MsgChangeParamName])
 	case "daotransfer", "daoburn":
-		return sdk.NewInt(govTypes.GovFeeMap[govTypes.MsgDAOTransferName])
+		base = sdk.NewInt(govTypes.GovFeeMap[govTypes.MsgDAOTransferName])
 	case "upgrade":
-		return sdk.NewInt(govTypes.GovFeeMap[govTypes.MsgUpgradeName])
+		base = sdk.NewInt(govTypes.GovFeeMap[govTypes.MsgUpgradeName])
 	}
-	return sdk.ZeroInt()
+	mult := int64(1)
+	if s != nil {
+		var fm authTypes.FeeMultipliers
+		if err := authTypes.ModuleCdc.UnmarshalJSON([]byte(s.Params["auth/FeeMultipliers"]), &fm); err == nil {
+			mult = fm.Default
+			for _, e := range fm.FeeMultis {
+				if e.Key == typeName[kind] {
+					mult = e.Multiplier
+					break
+				}
+			}
+		}
+	}
+	return base.Mul(sdk.NewInt(mult))
 }
 
 // feeOnly reports whether after == before with exactly fee (and fee2 of the second denomination) moved from payer
@@ -1004,8 +1024,8 @@ func (f *Fam) checkTx(before, after *Snapshot, r string, bz []byte, msg sdk.Msg,
 		if t.mut != "none" && t.mut != "" {
 			fail("signed-fields", "C03:mutated-tx-accepted", fmt.Sprintf("%s tx mutated after signing (%s) passed the ante handler", t.kind, t.mut))
 		}
-		if t.feeEff().LT(f.requiredFee(t.kind)) {
-			fail("fee-required", "C03:fee-below-required-accepted", fmt.Sprintf("%s tx with fee %s < required %s passed the ante handler", t.kind, t.feeEff(), f.requiredFee(t.kind)))
+		if t.feeEff().LT(f.requiredFee(before, t.kind)) {
+			fail("fee-required", "C03:fee-below-required-accepted", fmt.Sprintf("%s tx with fee %s < required %s passed the ante handler", t.kind, t.feeEff(), f.requiredFee(before, t.kind)))
 		}
 		if f.delivered[hash] {
 			fail("replay", "C03:replay-accepted", "a transaction already in the tx index passed the ante handler")
